@@ -47,7 +47,8 @@ JOBS = {"quick": 4, "thorough": 8}
 LEVEL_TEXT = (
     "Every cell of the table durations {0,1,1.25,2} x outcomes {value, falsy value, Exception, falsy Exception, BaseException, self-cancel, ignores-first-cancel, cancelled-cleanup-raises} x "
     "timeouts {0.5..3} x caller-cancel instants {none, 0..3.5} x {scoped, unscoped} is run in exact virtual time and compared with the outcome table; "
-    "a caller still waiting at loop quiescence is reported as a hang. Thorough adds two-phase functions and nested timeouts."
+    "a caller still waiting at loop quiescence is reported as a hang. Thorough adds two-phase functions and nested timeouts. "
+    "Overlapping calls through one wrapper and calls made by descendants (task, callback, ctx.spawn) of a timeouted call that already ended each keep their own deadline."
 )
 LEVEL_NOTE = "Trusted: VirtualLoop (exact time, quiescence = nothing can ever happen again), the outcome table in hv/props/c16.py. Real-time behaviour is out of scope."
 
